@@ -144,6 +144,10 @@ func smtFileQ(o *Obligation, slice bool, dropQuant bool) string {
 				if _, ok := st.funcs[d]; !ok && strings.HasPrefix(d, "fnret_") {
 					st.funcs[d] = "(Int Int) " + strings.TrimPrefix(d, "fnret_")
 				}
+				if _, ok := st.funcs[d]; !ok && d == "fld_Snapshot_Date__Int" {
+					st.funcs[d] = "(Ref) Int"
+					st.sorts[SRef] = true
+				}
 			}
 		}
 	}
@@ -225,7 +229,15 @@ func runSolver(ctx context.Context, solver, file string, timeout time.Duration) 
 	t0 := time.Now()
 	_ = cmd.Run()
 	el := time.Since(t0).Seconds()
-	first := strings.TrimSpace(strings.SplitN(out.String(), "\n", 2)[0])
+	first := ""
+	for _, l := range strings.Split(out.String(), "\n") {
+		l = strings.TrimSpace(l)
+		if l == "" || strings.HasPrefix(l, "WARNING") {
+			continue
+		}
+		first = l
+		break
+	}
 	res := "unknown"
 	switch {
 	case first == "unsat":
@@ -303,6 +315,20 @@ func discharge(o *Obligation, dir string, timeout time.Duration, idx int) {
 	}
 	if quick.result == "error" {
 		o.Detail = firstLines(quick.out, 3)
+	}
+	// the sliced problem was not decided: race the solvers on the sliced AND on the unsliced text
+	// (hypotheses unrelated to the goal can still be jointly contradictory, e.g. a dead path)
+	renderMu.Lock()
+	fullTxt := smtFile(o, false)
+	renderMu.Unlock()
+	fullName := fname
+	if fullTxt != txt && len(fullTxt) < 1024*1024 {
+		fullName = fname + ".full.smt2"
+		os.WriteFile(fullName, []byte(fullTxt), 0o644)
+		if r := runSolver(context.Background(), "z3-new", fullName, 3*time.Second); r.result == "unsat" {
+			o.Result, o.Solver, o.Time = "unsat", "z3-new(full)", time.Since(t0).Seconds()
+			return
+		}
 	}
 	ctx, cancel := context.WithCancel(context.Background())
 	defer cancel()
